@@ -25,6 +25,8 @@ import Pybes3Verif.Props.C05
 import Pybes3Verif.Props.C08
 import Pybes3Verif.Gen.DetParse
 
+set_option autoImplicit false
+
 namespace Pybes3Verif.DetParseTie
 open Pybes3Verif.Gen Pybes3Verif.Gen.DigiId Pybes3Verif.Gen.Mdc Pybes3Verif.Gen.Emc Pybes3Verif.Gen.DetParse
 
@@ -270,14 +272,18 @@ theorem mdc_field_order :
     (fieldNames "parse_mdc_digi_id").map (·.take 6) = some ["gid", "layer", "wire", "stereo", "is_stereo", "superlayer"] ∧
     (fieldNames "parse_mdc_digi").map (·.take 6) = some ["gid", "wire", "layer", "stereo", "is_stereo", "superlayer"] := by decide
 
-/-- which fields exist only `with_pos`: exactly the coordinates, in every MDC / EMC parser alike -/
+/-- which fields exist only `with_pos` (`posOnly`: the fields the translator saw being set inside `if with_pos:`, the ones whose `wiring`
+expression carries the `pos:` prefix): exactly the coordinates, in every MDC / EMC parser alike, and none elsewhere -/
 theorem with_pos_fields :
-    let posOnly := fun p => (wiring.lookup p).map fun fs => (fs.filter fun f => "pos:".toList.isPrefixOf f.2.toList).map Prod.fst
-    posOnly "parse_mdc_gid" = some ["mid_x", "mid_y", "west_x", "west_y", "west_z", "east_x", "east_y", "east_z"] ∧
-    posOnly "parse_mdc_digi_id" = posOnly "parse_mdc_gid" ∧ posOnly "parse_mdc_digi" = posOnly "parse_mdc_gid" ∧
-    posOnly "parse_emc_gid" = some ["front_center_x", "front_center_y", "front_center_z", "center_x", "center_y", "center_z"] ∧
-    posOnly "parse_emc_digi_id" = posOnly "parse_emc_gid" ∧ posOnly "parse_emc_digi" = posOnly "parse_emc_gid" ∧
-    posOnly "parse_tof_digi_id" = some [] ∧ posOnly "parse_muc_digi_id" = some [] ∧ posOnly "parse_cgem_digi_id" = some [] := by
-  decide
+    posOnly.lookup "parse_mdc_gid" = some ["mid_x", "mid_y", "west_x", "west_y", "west_z", "east_x", "east_y", "east_z"] ∧
+    posOnly.lookup "parse_mdc_digi_id" = posOnly.lookup "parse_mdc_gid" ∧
+    posOnly.lookup "parse_mdc_digi" = posOnly.lookup "parse_mdc_gid" ∧
+    posOnly.lookup "parse_emc_gid" = some ["front_center_x", "front_center_y", "front_center_z", "center_x", "center_y", "center_z"] ∧
+    posOnly.lookup "parse_emc_digi_id" = posOnly.lookup "parse_emc_gid" ∧
+    posOnly.lookup "parse_emc_digi" = posOnly.lookup "parse_emc_gid" ∧
+    posOnly.lookup "parse_tof_digi_id" = some [] ∧ posOnly.lookup "parse_muc_digi_id" = some [] ∧
+    posOnly.lookup "parse_cgem_digi_id" = some [] ∧
+    withPosDefaults = [("parse_mdc_gid", true), ("parse_mdc_digi_id", false), ("parse_mdc_digi", false),
+      ("parse_emc_gid", true), ("parse_emc_digi_id", false), ("parse_emc_digi", false)] := by decide
 
 end Pybes3Verif.DetParseTie
